@@ -193,5 +193,10 @@ class SourceIndex:
 
 
 def describe(fi, index):
-    return {"name": fi.name, "file": os.path.relpath(fi.path, index.repo),
-            "lines": list(fi.lines), "blob": index.blobs[fi.module]}
+    blob = index.blobs.get(fi.module)
+    if blob is None:
+        with open(fi.path, "rb") as f:
+            data = f.read()
+        blob = hashlib.sha1(b"blob %d\0" % len(data) + data).hexdigest()
+    rel = os.path.relpath(fi.path, index.repo) if fi.path.startswith(index.repo) else fi.path
+    return {"name": fi.name, "file": rel, "lines": list(fi.lines), "blob": blob}
